@@ -53,7 +53,8 @@ class C18(Prop):
                 "C18_index_none_not_grouped", "C18_index_never_none", "C18_groupedb_iff", "C18_index_views_concat",
                 "C18_view_lines", "C18_line_offsets_are_byte_offsets",
                 "C18_parallel_stream_eq_serial", "C18_parallel_stream_eq_serial_100", "C18_index_streams",
-                "C18_chunk_stream_eq_serial", "C18_chunks_cut_at_lines", "C18_parallel_source_eq_serial"]
+                "C18_chunk_stream_eq_serial", "C18_chunks_cut_at_lines", "C18_chunks_feed_C17",
+                "C18_parallel_source_eq_serial"]
     RULE = ("exhaustive small scope. view: every window 0<=a<=b<=len of files of 0..L bytes (plus windows reaching past the "
             "end, a>b, a>=2^63) x every op sequence of length d over eight fixed six-op alphabets and random alphabets from a pool "
             "of 41 ops with boundary arguments (0, +-1, window length +-1, 100, u64::MAX, i64::MIN/MAX), observed after every op, "
